@@ -11,6 +11,10 @@ var simErrLines = []string{
 	"ERR something went wrong", "WRONGTYPE Operation against a key holding the wrong kind of value",
 	"LOADING Redis is loading the dataset in memory", "CLUSTERDOWN The cluster is down", "TRYAGAIN Multiple keys request during rehashing of slot",
 	"CROSSSLOT Keys in request don't hash to the same slot", "READONLY You can't write against a read only replica.", "ERR", "BUSY x",
+	// (only errors redis gives to data commands: the authentication failures `-NOAUTH`, `-ERR invalid password`, ...
+	// make the proxy shut down by design and are outside every property's domain)
+	"ERR invalid expire time in 'set' command", "ERR invalid cursor", "ERR value is not an integer or out of range",
+	"NOPERM this user has no permissions", "ERR invalid DB index", "EXECABORT Transaction discarded because of previous errors.",
 }
 
 func genTopo(r *Rng, allowHoles bool) *simTopo {
@@ -254,6 +258,25 @@ func (v *simView) Gen(rng *Rng, i int) string {
 		g.nreq[ci] += npings
 		g.emit(fmt.Sprintf("c %d %s", ci, hx(data)))
 	}
+	if rng.Chance(1, 40) && len(addrs) > 0 {
+		// a redirect storm: one request is bounced by MOVED / ASK replies (mixed, or ASK only) more often than the
+		// proxy follows redirects
+		ci := 0
+		g.emit(fmt.Sprintf("c %d %s", ci, hx(g.requestGet(ci))))
+		askOnly := rng.Bool()
+		for hop := 0; hop < 20 && run.crashed == ""; hop++ {
+			g.emit("T")
+			pb := pendingBackends()
+			if len(pb) == 0 {
+				break
+			}
+			kind := "ask"
+			if !askOnly && rng.Bool() {
+				kind = "moved"
+			}
+			g.emit(fmt.Sprintf("s %d %s %s", pb[0], kind, hx([]byte(addrs[rng.Intn(len(addrs))]))))
+		}
+	}
 	for st := 0; st < steps && run.crashed == ""; st++ {
 		x := rng.Intn(100)
 		switch {
@@ -278,9 +301,15 @@ func (v *simView) Gen(rng *Rng, i int) string {
 			}
 		case x < 55:
 			g.emit("T")
-		case x < 88:
+		case x < 84:
 			if pb := pendingBackends(); len(pb) > 0 {
 				answer(pb[rng.Intn(len(pb))], true)
+			} else {
+				g.emit("T")
+			}
+		case x < 88:
+			if pb := pendingBackends(); len(pb) > 0 {
+				g.emit(fmt.Sprintf("m %d %d", pb[rng.Intn(len(pb))], 2+rng.Intn(3)))
 			} else {
 				g.emit("T")
 			}
